@@ -267,7 +267,10 @@ def rule_lim(ctx: Ctx) -> RuleResult:
         rr.instances += 1
         lt = norm(_len_terms(n)[0])
         c = lambda k, L=10: _eval_cmp(n, {lt: k, lim_var: L})
-        ok = c(9) is True and c(10) is False and c(11) is False and _eval_cmp(n, {lt: 0, lim_var: 0}) is False
+        # polarity-free: the comparison flips exactly between limit-1 and limit, and (0 members, limit 0) is on the
+        # at-limit side (maximum 0 disables literals)
+        ok = None not in (c(9), c(10), c(11)) and c(9) != c(10) and c(10) == c(11) and \
+            _eval_cmp(n, {lt: 0, lim_var: 0}) == c(10)
         rr.ob(f.relpath, f.qualname, norm(n), "Literal is emitted iff the number of members is below the configured maximum "
               "(so a maximum of 0 disables literals)", DISCHARGED if ok else VIOLATED,
               f"with limit 10: truth at 9, 10, 11 = {c(9)}, {c(10)}, {c(11)}; limit 0, empty set -> "
@@ -356,10 +359,20 @@ def rule_label1(ctx: Ctx) -> RuleResult:
     body = f.node.body
     stage_pos: Dict[str, int] = {}
     detail: Dict[str, str] = {}
+    def expanded(st):
+        """the statement's own nodes plus the bodies of repository helpers it calls (one level)"""
+        nodes = list(ast.walk(st))
+        for x in list(nodes):
+            if isinstance(x, ast.Call) and isinstance(x.func, ast.Name):
+                r = ctx.prog.resolve_global(f.module, x.func.id)
+                if isinstance(r, FuncInfo) and r is not f:
+                    nodes += [y for y in ast.walk(r.node) if not isinstance(y, ast.Return)]
+        return nodes
+
     for i, st in enumerate(body):
         t = norm(st)
-        for x in ast.walk(st):
-            if isinstance(x, ast.Call) and norm(x.func) == "re.sub" and len(x.args) == 3 and norm(x.args[2]) == s:
+        for x in expanded(st):
+            if isinstance(x, ast.Call) and norm(x.func) == "re.sub" and len(x.args) == 3 and isinstance(x.args[2], ast.Name):
                 pat = ctx.folder.try_fold(f.module, x.args[0])
                 rep = ctx.folder.try_fold(f.module, x.args[1])
                 if isinstance(pat, str):
@@ -372,7 +385,7 @@ def rule_label1(ctx: Ctx) -> RuleResult:
                         stage_pos.setdefault("strip", i)
                     else:
                         detail["strip"] = f"re.sub({pat!r}, {rep!r}) does not delete exactly the non-word characters"
-            if isinstance(x, ast.Call) and norm(x.func).endswith("unidecode") and x.args and norm(x.args[0]) == s:
+            if isinstance(x, ast.Call) and norm(x.func).endswith("unidecode") and x.args and isinstance(x.args[0], ast.Name):
                 stage_pos.setdefault("unidecode", i)
             if isinstance(x, ast.Call) and norm(x.func) == "inflection.underscore":
                 stage_pos.setdefault("case", i)
@@ -567,6 +580,17 @@ def _simulate(p: Path):
                 if d is not None and tg.slice.value not in d:
                     d.append(tg.slice.value)
         for x in ast.walk(st):
+            if isinstance(x, ast.Call) and isinstance(x.func, ast.Attribute) and x.func.attr in ("update", "setdefault") and \
+                    isinstance(x.func.value, ast.Name) and dicts.get(x.func.value.id) is not None:
+                keys = [k.arg for k in x.keywords if k.arg]
+                if x.func.attr == "setdefault" and x.args and isinstance(x.args[0], ast.Constant):
+                    keys.append(x.args[0].value)
+                for a in x.args:
+                    if isinstance(a, ast.Dict):
+                        keys += [k.value for k in a.keys if isinstance(k, ast.Constant)]
+                for k in keys:
+                    if k not in dicts[x.func.value.id]:
+                        dicts[x.func.value.id].append(k)
             if isinstance(x, ast.Call) and isinstance(x.func, ast.Attribute) and x.func.attr == "pop" and \
                     isinstance(x.func.value, ast.Name) and dicts.get(x.func.value.id) is not None and x.args and \
                     isinstance(x.args[0], ast.Constant) and x.args[0].value in dicts[x.func.value.id]:
@@ -609,6 +633,18 @@ def _field_data_table(ctx: Ctx, f: FuncInfo):
                 if isinstance(x, ast.Call) and isinstance(x.func, ast.Attribute) and x.func.attr == "pop" and \
                         norm(x.func.value) in ("body_kwargs", "kwargs") and x.args and isinstance(x.args[0], ast.Constant):
                     removed.add(x.args[0].value)
+                if isinstance(x, ast.Call) and isinstance(x.func, ast.Attribute) and x.func.attr == "update" and \
+                        norm(x.func.value) in ("body_kwargs", "kwargs"):
+                    for kw in x.keywords:
+                        if kw.arg:
+                            kwargs[kw.arg] = norm(kw.value)
+                            removed.discard(kw.arg)
+                    for a in x.args:
+                        if isinstance(a, ast.Dict):
+                            for k2, v2 in zip(a.keys, a.values):
+                                if isinstance(k2, ast.Constant):
+                                    kwargs[k2.value] = norm(v2)
+                                    removed.discard(k2.value)
         rows.append({"optional": opt, "kind": kind, "kwargs": kwargs, "removed": removed, "body": body_set, "path": p})
     return rows
 
